@@ -7,6 +7,7 @@ hydrogen nuclei equals the reference ratio, electrons are untouched, everything 
 the identity when the ratios already match."""
 import random
 import re
+import subprocess
 from fractions import Fraction
 
 from .. import framework as fw
@@ -14,7 +15,8 @@ from .. import odelib as ol
 from ..impl import Species, Network, Reaction, ReactionType, reset_globals, quiet
 from naunet.templateloader import TemplateLoader, NetworkInfo
 
-TRUST = ["exact rational Gaussian elimination in the harness stands for the dense LU of SUNDIALS (a non-singular system has one solution)",
+TRUST = ["exact rational Gaussian elimination in the harness stands for the dense LU of SUNDIALS (a non-singular system has one solution); "
+         "channel C runs the rendered Naunet::SetReferenceAbund / Renorm against the SUNDIALS stand-in with a floating-point dense solve",
          "compositions used by the oracle are Species.element_count (C08)"]
 
 ATOMS = ["H", "He", "C", "O", "N", "Si", "D"]
@@ -261,6 +263,8 @@ def run(res, info):
     nb = 12 if res.tier == "quick" else 150
     for i, sp in enumerate(FIXED):
         check_net(res, model, sp, rng, ("fixed", i), render=True)
+    for i, sp in enumerate(FIXED[:3] if res.tier == "quick" else FIXED + GRAINS):
+        check_driver(res, sp, rng, ("driver", i))
     for i, sp in enumerate(FINDINGS):
         check_net(res, model, sp, rng, ("finding", i), render=True)
     for i, sp in enumerate(GRAINS):
@@ -269,6 +273,63 @@ def run(res, info):
         check_net(res, model, gen_species(rng, grains=(i % 4 == 3)), rng, i, render=i < nb)
     if model:
         model.close()
+
+
+CXX = fw.VERIF / "harness" / "cxx"
+
+
+def check_driver(res, species_names, rng, tag):
+    """channel C: the rendered Naunet::SetReferenceAbund and Naunet::Renorm (cvode) compiled against the SUNDIALS
+    stand-in (with a real dense solve) and called several times on ONE object: every call must restore the
+    reference ratios, and a vector that already has them must come back unchanged"""
+    case = {"kind": "c16-driver", "species": species_names}
+    net = build(species_names)
+    species = net.species
+    ename = [next(iter(e.element_count)) for e in net.elements]
+    if "H" not in ename or any(el not in ename for s in species if not s.is_electron for el in s.element_count):
+        return
+    d = ol.render(net, "cvode", "dense", "cpu")
+    exe = d / "renorm"
+    srcs = ["naunet.cpp", "naunet_renorm.cpp", "naunet_physics.cpp", "naunet_constants.cpp", "naunet_utilities.cpp"]
+    r = subprocess.run(["g++", "-std=c++17", "-O0", "-w", "-I", str(CXX / "sundials"), "-I", str(CXX), "-I", str(d / "include"), "-o", str(exe),
+                        *[str(d / "src" / f) for f in srcs], str(CXX / "mock_renorm.cpp")], stdout=subprocess.PIPE, stderr=subprocess.STDOUT, text=True)
+    if r.returncode != 0:
+        res.violation("correspondence", f"rendered cvode sources with Renorm do not compile against the stand-in: {r.stdout[-500:]}", case)
+        ol.cleanup_scratch()
+        return
+    n = len(species)
+    vec = lambda: [rng.uniform(0.1, 10.0) for _ in range(n)]
+    ref = vec()
+
+    def ratios(v):
+        tot = {el: sum(s.element_count.get(el, 0) * v[k] for k, s in enumerate(species) if not s.is_electron) for el in ename}
+        return {el: tot[el] / tot["H"] for el in ename}
+    want = ratios(ref)
+    match = [x * 3.5 for x in ref]
+    inputs = [vec(), vec(), match, vec()]
+    out = subprocess.run([str(exe), ",".join(repr(x) for x in ref)] + [",".join(repr(x) for x in v) for v in inputs],
+                         stdout=subprocess.PIPE, text=True).stdout.splitlines()
+    if len(out) != len(inputs):
+        res.violation("correspondence", f"the renormalisation driver printed {len(out)} lines for {len(inputs)} vectors", case)
+    else:
+        for k, (line, vin) in enumerate(zip(out, inputs)):
+            f = line.split()
+            got = [float(x) for x in f[1:]]
+            if f[0] != "0" or len(got) != n or not all(x == x and abs(x) != float("inf") for x in got):
+                res.violation("oracle", f"call {k + 1} of Renorm on one object returns flag {f[0]} / non-finite abundances {got[:4]}", dict(case, call=k + 1))
+                break
+            have = ratios(got)
+            bad = [el for el in ename if abs(have[el] - want[el]) > 1e-9 * abs(want[el])]
+            if bad:
+                res.violation("oracle", f"call {k + 1} of Renorm on one object (reference set once): {bad[0]}/H = {have[bad[0]]!r}, reference {want[bad[0]]!r} "
+                                        f"(species {[s.name for s in species]})", dict(case, call=k + 1))
+                break
+            if vin is match and any(abs(a - b) > 1e-9 * abs(b) for a, b in zip(got, vin)):
+                res.violation("oracle", f"call {k + 1}: a vector that already has the reference ratios is changed: {vin[:3]} -> {got[:3]}", dict(case, call=k + 1))
+                break
+    res.count("driver runs (SetReferenceAbund once, Renorm x4)")
+    ol.cleanup_scratch()
+    res.case(("c16-driver", tag, tuple(species_names)), sample={"species": species_names[:8], "calls": len(inputs)}, nontrivial=True)
 
 
 def replay(rp, info):
